@@ -70,6 +70,13 @@ pub fn span_overflow(l: &[u64]) -> bool {
     let nh = slots - l.len() as u128;
     24 + 4 * nh > u64::MAX as u128
 }
+/// some increasing sub-list may overflow the hole count: max - min >= 2^62 - 5
+pub fn wide_span(l: &[u64]) -> bool {
+    match (l.iter().min(), l.iter().max()) {
+        (Some(a), Some(b)) => b - a >= (1u64 << 62) - 5,
+        _ => false,
+    }
+}
 pub fn in_domain(l: &[u64]) -> bool {
     nodup(l) && !has_max(l) && !span_overflow(l)
 }
